@@ -286,6 +286,10 @@ def generate(repo, manifest):
     out.append(",\n".join(f'  ("{key}", {ln})' for (ln, key, _, _) in res.order))
     out.append("]")
     out.append("def schemas : List Schema := table.map (·.2)")
+    out.append("/-- the schemas of items of the repository (everything but the harness' test types) -/")
+    out.append("def repoSchemas : List Schema := [" + ", ".join(ln for (ln, _, _, f) in res.order if not f.startswith("harness/")) + "]")
+    out.append("/-- the harness' test types (harness/src/c12types.rs): one per codec building block -/")
+    out.append("def harnessSchemas : List Schema := [" + ", ".join(ln for (ln, _, _, f) in res.order if f.startswith("harness/")) + "]")
     out.append("end MlsVerif.Gen.Schemas")
     out.insert(-1, "/-- indices (into `table`) of the schemas that contain a node whose Rust decoder is stricter than the derive layout -/")
     out.insert(-1, "def refinedIdx : List Nat := [" + ", ".join(str(i) for i, (ln, _, _, _) in enumerate(res.order) if ln in res.refined) + "]")
